@@ -2,7 +2,7 @@
 lexical rendering of an AST in random legal spellings, wire encoding of ASTs."""
 from . import wire
 
-NAMES = ["a", "b", "c", "a", "b", "x", "", "0", "1", "-1", "a b", "'", '"', "\\", "é", "\U0001F600", "\n", "\u0000", "\x7f", " ", "length", "*", "ab", "_x", "A"]
+NAMES = ["a", "b", "c", "a", "b", "x", "", "0", "1", "-1", "a b", "'", '"', "\\", "é", "\U0001F600", "\U0001F600x", "a\U0001F600\U0001F600", "\n", "\u0000", "\x7f", " ", "length", "*", "ab", "_x", "A"]
 SIMPLE_NAMES = ["a", "b", "c", "d", "x"]
 LIM = (1 << 53) - 1
 BUILTINS = [("length", [1], 1, [0]), ("count", [3], 1, [1]), ("match", [1, 1], 2, [3]), ("search", [1, 1], 2, [4]), ("value", [3], 1, [2])]
@@ -68,8 +68,11 @@ def rand_literal(rng):
     v = rand_scalar(rng)
     if isinstance(v, int) and not isinstance(v, bool) and abs(v) > (1 << 53):
         v = (1 << 53) if v > 0 else -(1 << 53)     # literals outside the exact range are out of every property's domain
-    if isinstance(v, float) and (abs(v) >= 1e16 or (v != 0 and abs(v) < 1e-4)):
-        v = 0.5                                    # repr uses exponent form; covered separately
+    if isinstance(v, float) and rng.random() < 0.5:
+        # floats with many significant digits and small magnitudes (repr with a negative exponent): str() must print them exactly
+        v = rng.choice([rng.random(), round(rng.uniform(-1000, 1000), rng.randint(1, 10)), 1.0 / 3, 0.1 + 0.2, 1.5e-07, 1e-05, 2.5e-10, 123456.789, 0.1234567, -6.02e-05])
+    if isinstance(v, float) and abs(v) >= 1e16:
+        v = 0.5                                    # repr uses a positive exponent: the text is an integer literal, outside the stated range
     return ("lit", v)
 
 
@@ -146,7 +149,7 @@ def render_str(rng, s, canonical=False):
         elif c in ESC: out.append(ESC[c] if (canonical or rng.random() < 0.8) else "\\u%04x" % o)
         elif o < 0x20: out.append("\\u%04x" % o if (canonical or rng.random() < 0.5) else "\\u%04X" % o)
         elif c == "/" and not canonical and rng.random() < 0.3: out.append("\\/")
-        elif not canonical and rng.random() < 0.08:
+        elif not canonical and rng.random() < (0.5 if o >= 0x10000 else 0.08):
             if o < 0x10000 and not (0xD800 <= o <= 0xDFFF): out.append(("\\u%04x" if rng.random() < 0.5 else "\\u%04X") % o)
             elif o >= 0x10000:
                 v = o - 0x10000
@@ -228,7 +231,7 @@ def render_segments(rng, segs, in_filter=False):
         else:
             body = (blank(rng) + "," + blank(rng)).join(render_sel(rng, s) for s in sels)
             out.append(("" if kind == "child" else "..") + "[" + blank(rng) + body + blank(rng) + "]")
-        if not in_filter: out[-1] = blank(rng, 0.05) + out[-1]
+        out[-1] = blank(rng, 0.12 if in_filter else 0.05) + out[-1]     # segments = *(S segment): also inside filters, after @ / $ and between segments
     return "".join(out)
 
 
